@@ -12,6 +12,7 @@
   belongs to the client model (C06/C14 files).
 -/
 import JRV.Lemmas.Server
+import JRV.Lemmas.JsonTextWs
 import JRV.Lemmas.PoolCompose
 import JRV.Properties.C03
 import JRV.Properties.C09
@@ -316,6 +317,37 @@ example : marshaledDispatch { cfg := {}, reg := exReg, pool := .accepting }
 example : marshaledDispatch { cfg := {}, custom := some (fun _ _ => .raised "KeyError" "'x'" false false 1) }
     (.parsed (notif "anything" []))
     = (.ok .empty, [.call .custom (.str "anything") (.list [])]) := by
+  decide +kernel
+
+/- ---------- the text around a notification ---------- -/
+
+/-- `JSON-text = ws value ws`.  A well-formed body wrapped in insignificant white space (SP, TAB, LF, CR before and
+    after the value) is still a JSON text (`JsonText.verdict_ws_wrap`, proved about the RFC 8259 recogniser) — in
+    particular it is not empty, so the dispatcher does not take its "no request data" parse failure — and, for every
+    parser `loads` that reads the wrapped text as the bare one (`hws`: what RFC 8259 says; on the real parser: the ws/…
+    twins of harness/servercases_ws.py on every run, facts `stdlibLoadsPlain` / `loadsParsesWholeBody`), the dispatcher
+    does with the wrapped body exactly what it does with the bare one: same reply, same effect log.  With the theorems
+    above: a notification in it is executed exactly once and never answered. -/
+theorem C04_ws_wrapped_body (s : Server) (loads : List Char → ParseOutcome)
+    (hws : ∀ pre t post, JsonText.allWs pre = true → JsonText.allWs post = true → loads (pre ++ t ++ post) = loads t)
+    (pre t post : List Char) (hpre : JsonText.allWs pre = true) (hpost : JsonText.allWs post = true)
+    (ht : JsonText.verdict t = .wellFormed) :
+    JsonText.verdict (pre ++ t ++ post) = .wellFormed ∧
+    marshaledDispatchBody s (pre ++ t ++ post).isEmpty (loads (pre ++ t ++ post)) =
+      marshaledDispatchBody s t.isEmpty (loads t) := by
+  refine ⟨by rw [JsonText.verdict_ws_wrap pre t post hpre hpost]; exact ht, ?_⟩
+  have hne : t ≠ [] := by
+    intro h; subst h
+    have : JsonText.verdict [] = .malformed := by decide
+    rw [this] at ht; cases ht
+  have h1 : t.isEmpty = false := by cases t <;> simp_all
+  have h2 : (pre ++ t ++ post).isEmpty = false := by cases t <;> simp_all
+  rw [hws pre t post hpre hpost, h1, h2]
+
+/- Non-vacuity: the body of the seeded edit — LF in front of a notification — is a JSON text. -/
+example : JsonText.allWs ['\n'] = true ∧ JsonText.allWs [] = true ∧
+    JsonText.verdict "{\"jsonrpc\":\"2.0\",\"method\":\"note\",\"params\":[1]}".toList = .wellFormed ∧
+    JsonText.verdict "\n{\"jsonrpc\":\"2.0\",\"method\":\"note\",\"params\":[1]}".toList = .wellFormed := by
   decide +kernel
 
 /- Non-vacuity of `C04_once_pooled`: a started pool (max 1, min 0), the request thread's `enqueue` of the notification
